@@ -1871,6 +1871,17 @@ class Function:
     def expand(self): return self
     def __repr__(self): return "Function(%s)" % self._name
 
+    def __str__(self):
+        # CasADi prints the signature only: name:(i0[2],i1,i2[0])->(o0[2]) MXFunction
+        def dim(m):
+            if m.shape == (1, 1):
+                return ""
+            if m.cols == 1:
+                return "[%d]" % m.rows
+            return "[%dx%d]" % (m.rows, m.cols)
+        return "%s:(%s)->(%s) MXFunction" % (self._name, ",".join(n + dim(m) for n, m in zip(self.names_in, self.ins)),
+                                             ",".join(n + dim(m) for n, m in zip(self.names_out, self.outs)))
+
 
 # ----------------------------------------------------------------------------------------
 # integrator (opaque, A-INTG) and collocation tables
